@@ -1,4 +1,6 @@
 """C02 — a response reaches exactly the task that asked, with the declared arity (structural clauses)."""
+import re
+
 from rules.facts import norm, path_matches, origins, flows_to, call_matches, last_seg
 from rules.common import panic_sites
 
@@ -402,7 +404,7 @@ def check_core_resolve(rep, core):
     if not prop_ok:
         # the same by an explicit match: the Err the function returns is the Err of Request::resolve, and with that result being Err no
         # Ok is built for the return (finite-domain evaluation over the two variants of the result)
-        errs = origins(f, {'l': 0, 'p': ['as Err', '.0']})
+        errs = origins(f, {'l': 0, 'p': ['as Err', '.0']}, extra_identity=[('core::result::Result::map', 0)])   # map leaves an Err as it is
         same_err = bool(errs) and all(o.kind == 'call' and o.bb == bb and o.suffix == ['as Err', '.0'] for o in errs)
         oks = [b2 for b2, i2, s2 in f.stmts('assign') if s2['rv']['k'] == 'agg' and s2['rv'].get('adt') == 'core::result::Result' and s2['rv'].get('variant') == 'Ok'
                and s2['d']['l'] == 0 and not s2['d']['p']]
@@ -447,8 +449,9 @@ def check_deserializing(rep, core):
     # as the function given to map / and_then on the deserialiser's result, or inside a closure given to them
     n = 0
     for g in core.closures_of(f):
-        conts = [u['name'] for u in g.upvars if u['ty'].startswith('alloc::boxed::Box<dyn')]
-        others = [u['name'] for u in g.upvars if not u['ty'].startswith('alloc::boxed::Box<dyn')]
+        ups = flatten_upvars(core, g)
+        conts = [n_ for n_, ty_ in ups if ty_.startswith('alloc::boxed::Box<dyn')]
+        others = [n_ for n_, ty_ in ups if not ty_.startswith('alloc::boxed::Box<dyn')]
         if len(conts) != 1 or not others or g.parent != f.path:
             continue
         n += 1
@@ -500,6 +503,30 @@ def check_deserializing(rep, core):
 def keypath_noidx(k):
     import re
     return re.sub(r'\{closure#\d+\}', '{closure}', k)
+
+
+def flatten_upvars(core, g):
+    """(name, type) of what a closure captures, a captured struct that did not exist when the rules were confirmed being replaced by its
+    fields (named by the field, generic parameters replaced by the arguments the capture was instantiated with)"""
+    from rules import inline
+    from rules.props import c01
+    known = inline.inventory().get('adts:' + core.name) or set()
+    out = []
+    for u in g.upvars:
+        ty = u['ty']
+        base = norm(ty.split('<')[0])
+        a = core.adts.get(base)
+        if a is None or a['kind'] != 'struct' or base in known or not known or ty.startswith('&'):
+            out.append((u['name'], ty))
+            continue
+        args = c01.split_args(ty[ty.index('<') + 1:-1]) if '<' in ty and ty.endswith('>') else []
+        sub = dict(zip(a.get('generics') or [], [x.strip() for x in args]))
+        for fld in a['variants'][0]['fields']:
+            fty = fld['ty']
+            for gp, ga in sub.items():
+                fty = re.sub(r'(?<![\w:])' + re.escape(gp) + r'(?![\w:])', lambda _m, _a=ga: _a, fty)
+            out.append((fld['name'], fty))
+    return out
 
 
 def flatten_caps(core, caps, _depth=0):
